@@ -368,3 +368,147 @@ Lemma exec_keyed_filtered : forall c benches groups,
 Proof.
   intros. rewrite exec_retain by apply wf_build_tree. apply filter_perm. apply exec_keyed.
 Qed.
+
+(** ** Registration order does not matter when group keys are distinct *)
+Lemma upd_head_false : forall k key' g r s tl, str_eqb k r = false -> upd (k :: key') g ((r, s) :: tl) = (r, s) :: tl.
+Proof. intros. cbn [upd]. rewrite H. reflexivity. Qed.
+
+Lemma upd_last : forall k g r s tl, upd [k] g ((r, s) :: tl) = if str_eqb k r then (r, Some g) :: tl else (r, s) :: tl.
+Proof. reflexivity. Qed.
+
+Lemma upd_more : forall k k2 key' g r s tl,
+  upd (k :: k2 :: key') g ((r, s) :: tl) = if str_eqb k r then (r, s) :: upd (k2 :: key') g tl else (r, s) :: tl.
+Proof. reflexivity. Qed.
+
+Lemma upd_comm : forall ch k1 g1 k2 g2, k1 <> k2 ->
+  upd k1 g1 (upd k2 g2 ch) = upd k2 g2 (upd k1 g1 ch).
+Proof.
+  induction ch as [|[r s] tl IH]; intros k1 g1 k2 g2 Hne.
+  - rewrite !upd_nil. reflexivity.
+  - destruct k1 as [|a k1']; [reflexivity|]. destruct k2 as [|b k2']; [reflexivity|].
+    destruct (str_eqb a r) eqn:Ea, (str_eqb b r) eqn:Eb.
+    + apply str_eqb_spec in Ea, Eb. subst a b.
+      destruct k1' as [|a1 k1''], k2' as [|b1 k2''].
+      * congruence.
+      * rewrite upd_more, upd_last, str_eqb_refl, upd_more, upd_last, !str_eqb_refl. reflexivity.
+      * rewrite upd_last, upd_more, str_eqb_refl, upd_last, upd_more, !str_eqb_refl. reflexivity.
+      * rewrite !upd_more, !str_eqb_refl, !upd_more, !str_eqb_refl. f_equal. apply IH. congruence.
+    + rewrite (upd_head_false b k2' g2 r s tl Eb).
+      destruct k1' as [|a1 k1'']; [rewrite upd_last|rewrite upd_more]; rewrite Ea; apply eq_sym; apply upd_head_false; exact Eb.
+    + rewrite (upd_head_false a k1' g1 r s tl Ea).
+      destruct k2' as [|b1 k2'']; [rewrite upd_last|rewrite upd_more]; rewrite Eb; apply upd_head_false; exact Ea.
+    + rewrite (upd_head_false b k2' g2 r s tl Eb), (upd_head_false a k1' g1 r s tl Ea).
+      apply eq_sym. apply upd_head_false. exact Eb.
+Qed.
+
+Lemma upd_all_perm : forall gs gs', Permutation gs gs' -> NoDup (map group_key gs) ->
+  forall ch, upd_all gs ch = upd_all gs' ch.
+Proof.
+  intros gs gs' H. induction H as [|x l l' Hp IH|x y l|l l' l'' H1 IH1 H2 IH2]; intros Hnd ch.
+  - reflexivity.
+  - unfold upd_all. cbn [fold_left]. cbn in Hnd. inversion Hnd; subst. apply IH. assumption.
+  - unfold upd_all. cbn [fold_left]. f_equal. cbn in Hnd. inversion Hnd as [|? ? Hn _]; subst.
+    apply upd_comm. intro E. apply Hn. left. exact E.
+  - rewrite IH1 by exact Hnd. apply IH2. eapply Permutation_NoDup; [|exact Hnd]. apply Permutation_map. exact H1.
+Qed.
+
+Lemma all_entries_perm : forall b b' g g',
+  Permutation b b' -> Permutation g g' -> Permutation (all_entries b g) (all_entries b' g').
+Proof.
+  intros. unfold all_entries. apply Permutation_app; [apply Permutation_map|apply Permutation_flat_map]; assumption.
+Qed.
+
+Lemma order_independent : forall c benches groups benches' groups',
+  Permutation benches benches' -> Permutation groups groups' -> NoDup (map group_key groups) ->
+  Permutation (exec_forest c [] None (retain (c_filter c) (build_tree benches groups)))
+              (exec_forest c [] None (retain (c_filter c) (build_tree benches' groups'))).
+Proof.
+  intros c b g b' g' Hb Hg Hnd.
+  eapply Permutation_trans; [apply exec_keyed_filtered|].
+  eapply Permutation_trans; [|apply Permutation_sym; apply exec_keyed_filtered].
+  apply filter_perm.
+  eapply Permutation_trans; [apply Permutation_flat_map_l; apply (all_entries_perm _ _ _ _ Hb Hg)|].
+  assert (He : forall e, keyed_case c g e = keyed_case c g' e).
+  { intro e. unfold keyed_case, rekey, keyed_chain. rewrite (upd_all_perm g g' Hg Hnd). reflexivity. }
+  rewrite (flat_map_ext _ _ He). apply Permutation_refl.
+Qed.
+
+(** ** Every registered case runs exactly once (include-ignored, no filter) *)
+Definition entry_calls (e : any_entry) : list (N * option value) :=
+  match entry_runner e with
+  | RPlain => [(entry_id e, None)]
+  | RArgs _ vals => map (fun v => (entry_id e, Some v)) vals
+  end.
+Definition call_of (x : xcase) : N * option value :=
+  (fst (fst x), match snd x with Some iv => Some (snd iv) | None => None end).
+
+Lemma arg_cases_all : forall e path vals pre,
+  map call_of (flat_map (arg_case e (pre ++ vals) path) (map N.of_nat (seq (length pre) (length vals))))
+  = map (fun v => (entry_id e, Some v)) vals.
+Proof.
+  intros e path. induction vals as [|v tl IH]; intro pre; [reflexivity|].
+  cbn [length seq map flat_map]. unfold arg_case at 1. rewrite Nat2N.id.
+  rewrite nth_error_app2 by lia. rewrite Nat.sub_diag. cbn [nth_error app map call_of fst snd]. f_equal.
+  specialize (IH (pre ++ [v])). rewrite <- app_assoc in IH. cbn [app] in IH.
+  rewrite app_length in IH. cbn [length] in IH. rewrite Nat.add_1_r in IH. exact IH.
+Qed.
+
+Definition cfg_all : cfg :=
+  {| c_run_ignored := RIYes; c_opts := {| o_ignore := None; o_sample_count := None |}; c_filter := fun _ => true |}.
+
+Lemma leaf_ignored_all : forall o, leaf_ignored cfg_all o = false.
+Proof. intros [[[[]|] sc]|]; reflexivity. Qed.
+
+Lemma keyed_case_all : forall groups e, map call_of (keyed_case cfg_all groups e) = entry_calls e.
+Proof.
+  intros groups e. unfold keyed_case, case_of, entry_calls. rewrite leaf_ignored_all.
+  unfold rleaf_of, rekey, leaf_args. cbn [fst snd]. destruct (entry_runner e) as [|o vals]; [reflexivity|].
+  unfold index_list. apply (arg_cases_all e _ vals []).
+Qed.
+
+Lemma map_flat_map : forall A B C (f : B -> C) (g : A -> list B) l,
+  map f (flat_map g l) = flat_map (fun x => map f (g x)) l.
+Proof. intros A B C f g. induction l as [|x tl IH]; cbn; [reflexivity|]. rewrite map_app, IH. reflexivity. Qed.
+
+Lemma all_run_once : forall benches groups,
+  Permutation (map call_of (exec_forest cfg_all [] None (retain (c_filter cfg_all) (build_tree benches groups))))
+              (flat_map entry_calls (all_entries benches groups)).
+Proof.
+  intros benches groups.
+  eapply Permutation_trans; [apply Permutation_map; apply exec_keyed_filtered|].
+  rewrite filter_all by (intros; reflexivity).
+  rewrite map_flat_map. rewrite (flat_map_ext _ _ (keyed_case_all groups)). apply Permutation_refl.
+Qed.
+
+(** ** F8: a module and a generic function of the same name share a node.
+    crate "c": [#[bench_group(name = "G", ignore)] mod f { #[bench] fn a() {} }] beside
+    [#[bench(types = [T])] fn f<T>() {}].  The tree runs [c::f::a] although its
+    group says ignore, and whether it does depends on the registration order. *)
+Definition w_c : str := [99].
+Definition w_f : str := [102].
+Definition w_a : str := [97].
+Definition w_G : str := [71].
+Definition w_cf : str := [99; 58; 58; 102].
+Definition w_opts_ign : opts := {| o_ignore := Some true; o_sample_count := None |}.
+Definition w_bench_a : bench_entry :=
+  {| b_id := 0; b_meta := {| m_display := w_a; m_raw := w_a; m_modpath := w_cf; m_line := 2; m_col := 5; m_opts := None |};
+     b_runner := RPlain |}.
+Definition w_mod_group : group_entry :=
+  {| g_id := 10; g_meta := {| m_display := w_G; m_raw := w_f; m_modpath := w_c; m_line := 1; m_col := 1; m_opts := Some w_opts_ign |};
+     g_generic := None |}.
+Definition w_fn_group : group_entry :=
+  {| g_id := 11; g_meta := {| m_display := w_f; m_raw := w_f; m_modpath := w_c; m_line := 4; m_col := 1; m_opts := None |};
+     g_generic := Some [[ {| ge_id := 1; ge_runner := RPlain; ge_kind := GType [105] |} ]] |}.
+Definition cfg_plain : cfg :=
+  {| c_run_ignored := RINo; c_opts := {| o_ignore := None; o_sample_count := None |}; c_filter := fun _ => true |}.
+
+Definition runs_a (l : list xcase) : bool := existsb (fun x => fst (fst x) =? 0) l.
+
+Example name_clash_refuted :
+  (* the intended (flat) semantics: [a] is ignored *)
+  runs_a (flat_exec cfg_plain [w_bench_a] [w_mod_group; w_fn_group]) = false /\
+  (* the tree: [a] runs when the function's entry is registered after the module's ... *)
+  runs_a (exec_forest cfg_plain [] None (build_tree [w_bench_a] [w_mod_group; w_fn_group])) = true /\
+  (* ... and does not in the other registration order *)
+  runs_a (exec_forest cfg_plain [] None (build_tree [w_bench_a] [w_fn_group; w_mod_group])) = false.
+Proof. repeat split; vm_compute; reflexivity. Qed.
